@@ -266,6 +266,8 @@ theorem runValidate_verdict (o : Opts) (sg dg : Graph) (rx : Regex) (focus : Lis
   simp only [] at h
   split at h
   · cases h
+  split at h
+  · cases h
   · split at h
     · cases h
     · have := validateAll_verdict _ _ _ conf rs h
